@@ -112,6 +112,11 @@ def run(ctx):
                 t = body
             else:
                 t = kind + " " + body
+            if j % 4 == 1:
+                # "in file order", not tick order: ticks go back and forth (A, B, A ...), all governed by the last tempo
+                # event of the map used here, so no backward step is refused by the hinted time lookup (C11)
+                lines.append(f'{r.choice([1000, 1000, 1001, 1050, 1400, 5000, 1234567])} = E "{t}"')
+                continue
             lines.append(f'{tick} = E "{t}"')
             tick += r.choice([0, 1, 50, 400])
         recs.append(observe_seq(f"s{j}", lines))
